@@ -285,7 +285,9 @@ class Ctx:
                 continue
             dbb, dpos, kind, payload = d
             if kind == 'assign' and payload['rv']['k'] == 'use' and payload['rv']['a']['k'] in ('copy', 'move', 'const'):
-                out.extend(self.alts(b, payload['rv']['a'], dbb, dpos, proj))
+                # a copy made inside a branch keeps that branch's literals (`let x = if c { f(y) } else { y }`: the else alternative is y UNDER not c)
+                here = list(self.guards(b, dbb))
+                out.extend((bb2, dv2, list(g2) + [l for l in here if l not in g2]) for bb2, dv2, g2 in self.alts(b, payload['rv']['a'], dbb, dpos, proj))
                 continue
             if kind == 'assign' and payload['rv']['k'] == 'ref' and not any(isinstance(e, dict) and ('idx' in e or 'cidx' in e or 'dc' in e) for e in payload['rv']['pl']['p']):
                 rp = payload['rv']['pl']
